@@ -142,7 +142,7 @@ def l1_suite(modes, quick=250, thorough=6000, monitor=None, name='l1'):
                      'non-trivial = distinct history with at least one commit and one of (merge of >=2 versions, tombstone, history deletion)')
         outdir = os.path.join(ctx.out, f'{name}-{ctx.prop}')
         n = ctx.n(quick, thorough)
-        r = harness(ctx, 'l1', ctx.seed_for(name), n, outdir, ' '.join(modes))
+        r = harness(ctx, {'l1c': 'l1c', 'l1f': 'l1f'}.get(name, 'l1'), ctx.seed_for(name), n, outdir, ' '.join(modes))
         if r.returncode != 0:
             res.mismatches.append(dict(suite=res.name, case='harness failed', impl=(r.stderr or r.stdout)[-2000:], model=''))
             return res
@@ -414,3 +414,59 @@ register('C08', [l2_suite('single')], ['TEXT values are valid UTF-8 (others must
 
 register('C02', [l0_suite(['merge_rows', 'merge_values']), l2_suite('multi', native=False, extra_monitor=c02_monitor)],
          ['write times set explicitly (second granularity); all writers declare the same columns'])
+
+# ---------------------------------------------------------------- crash points (C04)
+def c04_monitor(ctx, res, case, impl_line, model_line, spec):
+    """every crash point of a commit: recovery (read-only and read-write) succeeds and shows
+    exactly the old or exactly the new contents; from the PUT of the version object on, the new."""
+    for seg in impl_line.split(' ; ')[1:]:
+        toks = seg.split()
+        if 'C' not in toks or 'M' not in toks:
+            continue
+        if toks[0] != 'ok':
+            continue
+        mi = toks.index('M'); me = toks.index(']', mi)
+        muts = toks[mi + 2:me]
+        blocks, cur = [], None
+        for t in toks[me + 1:]:
+            if t.startswith('#'):
+                continue  # PreviousRoot metadata legitimately depends on which retry won
+            if t == 'C':
+                if cur is not None: blocks.append(cur)
+                cur = []
+            elif cur is not None:
+                cur.append(t)
+        if cur is not None: blocks.append(cur)
+        if len(blocks) != 2 * (len(muts) + 1):
+            # node-level puts are not in 'muts' for multi-node trees; use the block count
+            pass
+        npts = len(blocks) // 2
+        if npts == 0:
+            continue
+        old_ro, new_ro = blocks[0], blocks[2 * (npts - 1)]
+        res.crash_points = getattr(res, 'crash_points', 0) + npts
+        seen_new = False
+        for j in range(npts):
+            for pass_, blk in enumerate((blocks[2 * j], blocks[2 * j + 1])):
+                what = None
+                if not blk or blk[0] != 'ok':
+                    what = f'recovery open ({"ro" if pass_ == 0 else "rw"}) after crash point {j} fails: {" ".join(blk[:3])}'
+                elif blk != old_ro and blk != new_ro:
+                    what = f'recovery ({"ro" if pass_ == 0 else "rw"}) after crash point {j} shows neither the old nor the new contents'
+                elif seen_new and blk != new_ro and old_ro != new_ro:
+                    what = f'contents went back to the old state at crash point {j} after the new state had been visible'
+                if what:
+                    res.property_failures.append(dict(suite=res.name, case=case, crash_point=j, impl=' '.join(blk)[:800],
+                                                      old=' '.join(old_ro)[:800], new=' '.join(new_ro)[:800], what=what))
+                    return
+            if blocks[2 * j] == new_ro and old_ro != new_ro:
+                seen_new = True
+
+def l1c_suite(quick=120, thorough=3000):
+    inner = l1_suite(['rows', 'plain'], quick, thorough, monitor=c04_monitor, name='l1c')
+    def f(ctx):
+        # the crash suite uses harness level l1c
+        return inner(ctx)
+    return f
+
+register('C04', [l1c_suite()], ['a crash is the loss of every request after some point of the sequential request stream; node PUTs of one flush are explored in the order they were observed'])
